@@ -39,7 +39,7 @@ func (c13) Phases(env run.Env) []run.Phase {
 	return []run.Phase{{Name: "shared-packet", Race: true, N: 320}}
 }
 
-var c13OpNames = []string{"WriteTo", "String", "Dump", "WellFormed", "accessors", "will.WriteTo", "will.String", "ReadPacket", "New+decode", "ReadPacket(truncated stream)"}
+var c13OpNames = []string{"WriteTo", "String", "Dump", "WellFormed", "accessors", "will.WriteTo", "will.String", "ReadPacket", "New+decode", "ReadPacket(truncated stream)", "ReadPacket(frame cut between fields)"}
 
 type opLog struct {
 	op         int
@@ -204,6 +204,19 @@ func (c13) Run(c *run.Ctx, phase, idx int) {
 							}
 						} else if wantStr[fi] != "" {
 							bad[g] = "ReadPacket on a goroutine-local stream failed (" + err.Error() + ") for a frame that reads fine sequentially"
+						}
+					case 10:
+						// a complete frame whose content stops early: the decoder's
+						// rejection path, on every goroutine at once
+						f := frames[(g+k)%len(frames)]
+						if h, err := ref.ParseHeader(f); err == nil && len(f) > h.HdrLen+1 {
+							body := f[h.HdrLen:]
+							cut := 1 + (g*7+k)%(len(body)-1)
+							if p, err := mq.ReadPacket(bytes.NewReader(ref.Reframe(f[0], body[:cut]))); err != nil {
+								_ = err.Error()
+							} else {
+								_ = p.String()
+							}
 						}
 					case 9:
 						f := frames[(g+k)%len(frames)]
